@@ -50,8 +50,16 @@ type Identity struct {
 	Rdns *RDNs  `json:"rdns"`
 }
 
+// Statement: one statement of the trust policy document (Lean structure `Statement`)
+type Statement struct {
+	Name       string     `json:"name"`
+	IsGlobal   bool       `json:"isGlobal"`
+	Identities []Identity `json:"identities"`
+}
+
 type Input struct {
-	Identities []Identity  `json:"identities"`
+	Statements []Statement `json:"statements"` // the document's statements, in document order
+	PolicyName *string     `json:"policyName"` // VerifyBlob's TrustPolicyName; null: Verify over an OCI document
 	Chain      []DN        `json:"chain"`
 	Minted     [][2]string `json:"minted"`
 	Plugin     *Plugin     `json:"plugin"`
@@ -648,6 +656,192 @@ func (g *gen) identityList(leaf dnAST, cas []dnAST) ([]string, []dnAST) {
 	return ids, asts
 }
 
+// ---- blob documents: several statements, selected by name ---------------------------------------
+
+var nameBases = []string{"release", "nightly", "kit", "prod-signers", "Team A", "sk", "x"}
+var unrelatedNames = []string{"other", "default", "global", "c04"}
+
+// nameVariant returns a spelling related to base - what a lookup loosened by case folding,
+// trimming, prefix, suffix or substring matching would take for it - and the name of its kind
+func (g *gen) nameVariant(base string) (string, string) {
+	switch g.r.Intn(14) {
+	case 0, 1:
+		return base, "same"
+	case 2:
+		return strings.ToUpper(base), "upper"
+	case 3:
+		return strings.ToUpper(base[:1]) + base[1:], "title"
+	case 4:
+		i := g.r.Intn(len(base))
+		c := base[i : i+1]
+		if strings.ToUpper(c) != c {
+			c = strings.ToUpper(c)
+		} else {
+			c = strings.ToLower(c)
+		}
+		return base[:i] + c + base[i+1:], "one-letter-case"
+	case 5:
+		return " " + base, "leading-space"
+	case 6:
+		return base + " ", "trailing-space"
+	case 7:
+		return base + g.pick([]string{"\t", "\n", "\u00a0", "\u2003"}), "trailing-other-space"
+	case 8:
+		if len(base) < 2 {
+			return base + "0", "extension"
+		}
+		return base[:len(base)-1], "proper-prefix"
+	case 9:
+		return base + g.pick([]string{"-1", "2", ".old", "/x"}), "extension"
+	case 10:
+		// letters that are equal under Unicode case folding only: long s, Kelvin sign
+		if i := strings.IndexAny(base, "sk"); i >= 0 {
+			r := "\u017f"
+			if base[i] == 'k' {
+				r = "\u212a"
+			}
+			return base[:i] + r + base[i+1:], "unicode-fold"
+		}
+		return strings.ToLower(base), "lower"
+	case 11:
+		return "x" + base, "has-it-as-suffix"
+	case 12:
+		if strings.Contains(base, "-") {
+			return strings.ReplaceAll(base, "-", "_"), "separator"
+		}
+		return strings.ToLower(base), "lower"
+	default:
+		return base + base, "doubled"
+	}
+}
+
+// statementIdentities: what one statement pins
+func (g *gen) statementIdentities(leaf dnAST, cas []dnAST) ([]string, string) {
+	b := g.base(leaf)
+	switch p := g.r.Float64(); {
+	case p < 0.33:
+		ids := []string{x509p + g.render(singles(g.shuffled(b)))}
+		if g.chance(0.2) {
+			ids = append(ids, "com.example.keyless:someone")
+		}
+		return ids, "leaf-subject"
+	case p < 0.48:
+		ca := cas[g.r.Intn(len(cas))]
+		return []string{x509p + g.render(singles(g.shuffled(ca.flat())))}, "ca-subject"
+	case p < 0.56:
+		return []string{g.pick([]string{"com.example.keyless:someone", "x509.fingerprint:ab12cd", "oidc.subject:someone"})}, "foreign-only"
+	case p < 0.66:
+		as := g.shuffled(b)
+		i := g.r.Intn(len(as))
+		as[i].V = g.nearMiss(as[i].V)
+		return []string{x509p + g.render(singles(as))}, "near-miss"
+	case p < 0.71:
+		return []string{"*"}, "wildcard"
+	default:
+		ids, _ := g.identityList(leaf, cas)
+		return ids, "random-list"
+	}
+}
+
+// blobDoc: one to five statements, most of them named by variants of one base name (so that the
+// names differ in letter case, white space, a prefix or an extension only), each pinning its own
+// identities; at most one global statement when the document is to validate
+func (g *gen) blobDoc(leaf dnAST, cas []dnAST) ([]stmt, string) {
+	n := 1
+	switch p := g.r.Float64(); {
+	case p < 0.08:
+		n = 1
+	case p < 0.40:
+		n = 2
+	case p < 0.72:
+		n = 3
+	case p < 0.88:
+		n = 4
+	default:
+		n = 5
+	}
+	base := g.pick(nameBases)
+	used := map[string]bool{}
+	var stmts []stmt
+	for tries := 0; len(stmts) < n && tries < 60; tries++ {
+		name, kind := g.nameVariant(base)
+		if g.chance(0.15) {
+			name, kind = g.pick(unrelatedNames), "unrelated"
+		}
+		if used[name] {
+			if !g.chance(0.03) {
+				continue
+			}
+			kind = "repeated" // refused by the validation: the long-lived verifier only
+		}
+		used[name] = true
+		ids, ikind := g.statementIdentities(leaf, cas)
+		if kind == "repeated" {
+			// which of two statements of one name answers is nobody's business (the validation
+			// refuses such a document): both pin the same identities
+			for _, st := range stmts {
+				if st.name == name {
+					ids, ikind = append([]string(nil), st.ids...), "same-as-its-namesake"
+				}
+			}
+		}
+		g.c.Count("blob-statement-name=" + kind)
+		g.c.Count("blob-statement-pins=" + ikind)
+		stmts = append(stmts, stmt{name: name, ids: ids})
+	}
+	switch p := g.r.Float64(); {
+	case p < 0.60:
+		stmts[g.r.Intn(len(stmts))].global = true
+		g.c.Count("blob-global=one")
+	case p < 0.64 && len(stmts) > 1 && len(used) == len(stmts):
+		// two global statements (refused by the validation): which one answers is not fixed by
+		// the property, so both pin the same identities
+		i := g.r.Intn(len(stmts))
+		j := (i + 1 + g.r.Intn(len(stmts)-1)) % len(stmts)
+		stmts[i].global, stmts[j].global = true, true
+		stmts[j].ids = append([]string(nil), stmts[i].ids...)
+		g.c.Count("blob-global=two")
+	default:
+		g.c.Count("blob-global=none")
+	}
+	return stmts, base
+}
+
+// askedNames: the names VerifyBlob is called with for one document
+func (g *gen) askedNames(stmts []stmt, base string) ([]string, []string) {
+	carried := map[string]bool{}
+	for _, st := range stmts {
+		carried[st.name] = true
+	}
+	// a name a statement carries, preferably not the first statement's
+	i := g.r.Intn(len(stmts))
+	if len(stmts) > 1 && g.chance(0.6) {
+		i = 1 + g.r.Intn(len(stmts)-1)
+	}
+	names, kinds := []string{stmts[i].name}, []string{fmt.Sprintf("carried-by-statement-%d", i)}
+	// a related name no statement carries
+	for tries := 0; tries < 20; tries++ {
+		v, kind := g.nameVariant(base)
+		if tries%2 == 1 {
+			// ... or a variant of a name that is carried
+			v, kind = g.nameVariant(stmts[g.r.Intn(len(stmts))].name)
+		}
+		if !carried[v] && utf8.ValidString(v) && v != "" {
+			names, kinds = append(names, v), append(kinds, "uncarried-"+kind)
+			break
+		}
+	}
+	switch p := g.r.Float64(); {
+	case p < 0.35:
+		names, kinds = append(names, ""), append(kinds, "empty(global)")
+	case p < 0.47:
+		names, kinds = append(names, g.pick([]string{" ", "\t", "  ", "\u00a0", "\u2003 ", "\n"})), append(kinds, "blank")
+	case p < 0.55:
+		names, kinds = append(names, "no-such-statement"), append(kinds, "unrelated")
+	}
+	return names, kinds
+}
+
 // ---- what ldap.ParseDN answers ------------------------------------------------------------------
 
 func parse(s string) *RDNs {
@@ -714,6 +908,34 @@ func newDoc(level string, revSkip bool, ids []string) *trustpolicy.OCIDocument {
 	}}}
 }
 
+// stmt: one statement of a generated blob document
+type stmt struct {
+	name   string
+	global bool
+	ids    []string
+}
+
+func newBlobDoc(level string, revSkip bool, stmts []stmt) *trustpolicy.BlobDocument {
+	d := &trustpolicy.BlobDocument{Version: "1.0", TrustPolicies: []trustpolicy.BlobTrustPolicy{}}
+	for _, st := range stmts {
+		sv := trustpolicy.SignatureVerification{VerificationLevel: level, VerifyTimestamp: trustpolicy.OptionAfterCertExpiry}
+		if revSkip {
+			sv.Override = map[trustpolicy.ValidationType]trustpolicy.ValidationAction{trustpolicy.TypeRevocation: trustpolicy.ActionSkip}
+		}
+		d.TrustPolicies = append(d.TrustPolicies, trustpolicy.BlobTrustPolicy{
+			Name:                  st.name,
+			SignatureVerification: sv,
+			TrustStores:           []string{"ca:c04"},
+			TrustedIdentities:     st.ids,
+			GlobalPolicy:          st.global,
+		})
+	}
+	return d
+}
+
+// the descriptor of the blob: the one the envelope was signed over
+func blobDescriptor(digest.Algorithm) (ocispec.Descriptor, error) { return target, nil }
+
 // authenticity returns whether the authenticity result of the outcome carries no error
 func authenticity(out *notation.VerificationOutcome) (bool, error) {
 	if out == nil {
@@ -737,6 +959,8 @@ type world struct {
 	rev    *common.ScriptedRevocation
 	doc    map[string]*trustpolicy.OCIDocument // per (level, revocation skipped): the document the long-lived verifier holds
 	ver    map[string]notation.Verifier
+	bdoc   map[string]*trustpolicy.BlobDocument // the same for VerifyBlob
+	bver   map[string]notation.BlobVerifier
 }
 
 func cfgKey(level string, revSkip bool) string { return fmt.Sprint(level, "/", revSkip) }
@@ -745,8 +969,13 @@ func (w *world) options(d *trustpolicy.OCIDocument) verifier.VerifierOptions {
 	return verifier.VerifierOptions{OCITrustPolicy: d, PluginManager: w.mgr, RevocationCodeSigningValidator: w.rev}
 }
 
+func (w *world) blobOptions(d *trustpolicy.BlobDocument) verifier.VerifierOptions {
+	return verifier.VerifierOptions{BlobTrustPolicy: d, PluginManager: w.mgr, RevocationCodeSigningValidator: w.rev}
+}
+
 func newWorld() (*world, error) {
-	w := &world{store: &memStore{}, plugin: &common.ScriptedPlugin{}, doc: map[string]*trustpolicy.OCIDocument{}, ver: map[string]notation.Verifier{}}
+	w := &world{store: &memStore{}, plugin: &common.ScriptedPlugin{}, doc: map[string]*trustpolicy.OCIDocument{}, ver: map[string]notation.Verifier{},
+		bdoc: map[string]*trustpolicy.BlobDocument{}, bver: map[string]notation.BlobVerifier{}}
 	w.mgr = &common.ScriptedManager{Plugins: map[string]pluginfw.Plugin{pluginName: w.plugin}}
 	// revocation is answered locally (no network); the identity check precedes it anyway
 	w.rev = &common.ScriptedRevocation{Results: common.UniformResults(revresult.ResultOK)}
@@ -758,6 +987,12 @@ func newWorld() (*world, error) {
 				return nil, err
 			}
 			w.doc[cfgKey(lv, rs)], w.ver[cfgKey(lv, rs)] = d, v
+			bd := newBlobDoc(lv, rs, []stmt{{name: "c04", global: true, ids: []string{"*"}}})
+			bv, err := verifier.NewVerifierWithOptions(w.store, w.blobOptions(bd))
+			if err != nil {
+				return nil, err
+			}
+			w.bdoc[cfgKey(lv, rs)], w.bver[cfgKey(lv, rs)] = bd, bv
 		}
 	}
 	return w, nil
@@ -841,6 +1076,40 @@ func (w *world) verifyFresh(cf config, ids []string, sig []byte) (pass, ran bool
 	out, _ := v.Verify(context.Background(), target, sig, notation.VerifierVerifyOptions{ArtifactReference: artifactRef, SignatureMediaType: cf.media})
 	p, e := authenticity(out)
 	return p, true, e
+}
+
+// verifyBlobMutated: the long-lived blob verifier holds a valid document; its statements are
+// replaced in place afterwards (GetApplicableTrustPolicy reads them at VerifyBlob time), so that
+// documents the validation refuses (a repeated name, two global statements, malformed identity
+// lists) are looked up too.
+func (w *world) verifyBlobMutated(cf config, stmts []stmt, name string, sig []byte) (bool, error) {
+	w.script(cf.plugin)
+	k := cfgKey(cf.level, cf.revSkip)
+	w.bdoc[k].TrustPolicies = newBlobDoc(cf.level, cf.revSkip, stmts).TrustPolicies
+	out, _ := w.bver[k].VerifyBlob(context.Background(), blobDescriptor, sig, notation.BlobVerifierVerifyOptions{SignatureMediaType: cf.media, TrustPolicyName: name})
+	return authenticity(out)
+}
+
+// verifyBlobFresh: a verifier constructed from the document itself (when it validates)
+func (w *world) verifyBlobFresh(cf config, stmts []stmt, name string, sig []byte) (pass, ran bool, err error) {
+	w.script(cf.plugin)
+	v, verr := verifier.NewVerifierWithOptions(w.store, w.blobOptions(newBlobDoc(cf.level, cf.revSkip, stmts)))
+	if verr != nil {
+		return false, false, nil
+	}
+	out, _ := v.VerifyBlob(context.Background(), blobDescriptor, sig, notation.BlobVerifierVerifyOptions{SignatureMediaType: cf.media, TrustPolicyName: name})
+	p, e := authenticity(out)
+	return p, true, e
+}
+
+// identitiesOf: every listed identity with what ldap.ParseDN answers for the part after the first separator
+func identitiesOf(ids []string) []Identity {
+	out := []Identity{}
+	for _, s := range ids {
+		_, after, _ := strings.Cut(s, ":")
+		out = append(out, Identity{Raw: s, Rdns: parse(after)})
+	}
+	return out
 }
 
 func mintedList(d dnAST) [][2]string {
@@ -951,17 +1220,18 @@ func pluginKind(p *Plugin) string {
 
 // Run generates chains x identity lists x plugins.
 func Run(c *common.Ctx) error {
-	chains, listsPer := 650, 7
+	chains, listsPer, blobDocsPer := 650, 7, 2
 	if c.Thorough() {
-		chains, listsPer = 10000, 9
+		chains, listsPer, blobDocsPer = 10000, 9, 3
 	}
-	c.Note("%d chains (root [-> intermediate] -> leaf minted with the AST as RawSubject; two long-lived leaf keys with explicit SubjectKeyId, a long-lived root key and re-used CA certificates, so that many different subjects appear under the same SKI / public key / issuer in one process) x (%d random identity lists + the lone wildcard) x verification plugin (none | revocation-only | owning trusted identity, approving or rejecting); every list through a long-lived verifier whose document is mutated in place, and again through a freshly validated verifier when the document validates; levels strict/permissive/audit, revocation enforced/logged (scripted validator) or skipped, JWS and COSE", chains, listsPer)
+	c.Note("%d chains (root [-> intermediate] -> leaf minted with the AST as RawSubject; two long-lived leaf keys with explicit SubjectKeyId, a long-lived root key and re-used CA certificates, so that many different subjects appear under the same SKI / public key / issuer in one process) x (%d random identity lists + the lone wildcard; + %d blob documents of 1-5 statements named by letter-case / white-space / prefix / extension / Unicode-fold variants of one name, each pinning its own identities, VerifyBlob asked under a carried name, a related uncarried name, the empty (global) and a blank name) x verification plugin (none | revocation-only | owning trusted identity, approving or rejecting); every list through a long-lived verifier whose document is mutated in place, and again through a freshly validated verifier when the document validates; levels strict/permissive/audit, revocation enforced/logged (scripted validator) or skipped, JWS and COSE", chains, listsPer, blobDocsPer)
 	g := &gen{r: c.Rand, c: c}
 	w, err := newWorld()
 	if err != nil {
 		return fmt.Errorf("world: %v", err)
 	}
 	sawFail, sawPass := false, false
+	sawBlobFail, sawBlobPass := false, false
 	mismatch := 0
 
 	sharedLeafKeys := []crypto.Signer{common.NewECKey(), common.NewECKey()}
@@ -1061,11 +1331,7 @@ func Run(c *common.Ctx) error {
 		}
 
 		emit := func(cf config, ids []string) error {
-			in := Input{Identities: []Identity{}, Chain: chainDN, Minted: minted, Plugin: cf.plugin}
-			for _, s := range ids {
-				_, after, _ := strings.Cut(s, ":")
-				in.Identities = append(in.Identities, Identity{Raw: s, Rdns: parse(after)})
-			}
+			in := Input{Statements: []Statement{{Name: "c04", Identities: identitiesOf(ids)}}, Chain: chainDN, Minted: minted, Plugin: cf.plugin}
 			sig, err := sign(cf.plugin != nil)
 			if err != nil {
 				return err
@@ -1165,6 +1431,45 @@ func Run(c *common.Ctx) error {
 				return err
 			}
 		}
+		// VerifyBlob: documents of several statements whose names are variants of one another, each
+		// pinning its own identities; asked under a carried name, a related name no statement
+		// carries, the empty name (global statement) and a blank one
+		for k := 0; k < blobDocsPer; k++ {
+			stmts, base := g.blobDoc(leaf, casAST)
+			in := Input{Statements: []Statement{}, Chain: chainDN, Minted: minted}
+			for _, st := range stmts {
+				in.Statements = append(in.Statements, Statement{Name: st.name, IsGlobal: st.global, Identities: identitiesOf(st.ids)})
+			}
+			c.Count(fmt.Sprintf("blob-statements=%d", len(stmts)))
+			names, kinds := g.askedNames(stmts, base)
+			for j, name := range names {
+				cf := randomConfig()
+				sig, err := sign(cf.plugin != nil)
+				if err != nil {
+					return err
+				}
+				name := name
+				in.PolicyName, in.Plugin = &name, cf.plugin
+				pass, _ := w.verifyBlobMutated(cf, stmts, name, sig)
+				c.Emit(in, Obs{Pass: pass})
+				c.Count("route=blob-mutated-document")
+				c.Count("blob-asked=" + kinds[j])
+				c.Count("plugin(blob)=" + pluginKind(cf.plugin))
+				if cf.plugin == nil {
+					if pass {
+						sawBlobPass = true
+						c.Count("blob-outcome=pass")
+					} else {
+						sawBlobFail = true
+						c.Count("blob-outcome=fail")
+					}
+				}
+				if p2, ran, _ := w.verifyBlobFresh(cf, stmts, name, sig); ran {
+					c.Emit(in, Obs{Pass: p2})
+					c.Count("route=blob-validated-document")
+				}
+			}
+		}
 	}
 	if mismatch > 0 {
 		return fmt.Errorf("%d identities rendered from an AST did not parse back to it with go-ldap (see notes)", mismatch)
@@ -1173,6 +1478,9 @@ func Run(c *common.Ctx) error {
 	// (otherwise every case would silently run under the wildcard)
 	if !sawFail || !sawPass {
 		return fmt.Errorf("generator: degenerate run (sawPass=%v sawFail=%v): the in-place identity replacement is not effective", sawPass, sawFail)
+	}
+	if !sawBlobFail || !sawBlobPass {
+		return fmt.Errorf("generator: degenerate run (sawBlobPass=%v sawBlobFail=%v): the in-place replacement of the blob statements is not effective", sawBlobPass, sawBlobFail)
 	}
 	return nil
 }
